@@ -14,10 +14,10 @@ VENDOR_3GPP = 10415
 TICK = 0.25
 
 
-def config(role, apps=(), watchdog=30):
+def config(role, apps=(), watchdog=30, transport="tcp"):
     return {
         "MODE": role.upper(),
-        "TRANSPORT_TYPE": "TCP",
+        "TRANSPORT_TYPE": transport.upper(),
         "APPLICATIONS": [{"vendor_id": VENDOR_3GPP.to_bytes(4, "big"), "app_id": a.to_bytes(4, "big")} for a in apps],
         "LOCAL_NODE_HOSTNAME": LOCAL["host"], "LOCAL_NODE_REALM": LOCAL["realm"],
         "LOCAL_NODE_IP_ADDRESS": LOCAL["ip"], "LOCAL_NODE_PORT": LOCAL["port"],
@@ -127,7 +127,7 @@ def header_of(msg):
 # -- the node -----------------------------------------------------------------------------------------------
 
 class Node:
-    def __init__(self, rt, role, apps=(S6A,), watchdog=30, send_buffer=None, sleep_timer=1.0):
+    def __init__(self, rt, role, apps=(S6A,), watchdog=30, send_buffer=None, sleep_timer=1.0, transport="tcp"):
         import bromelia.setup as SU
         import bromelia.statemachine as SM
         self.rt, self.role = rt, role
@@ -137,7 +137,8 @@ class Node:
         self._saved_buffer = SU.SEND_BUFFER_MAXIMUM_SIZE
         SU.SEND_BUFFER_MAXIMUM_SIZE = send_buffer if send_buffer is not None else 4096 * 64
         self.SU = SU
-        self.diameter = SU.Diameter(config=config(role, apps, watchdog))
+        self.transport_kind = transport
+        self.diameter = SU.Diameter(config=config(role, apps, watchdog, transport))
         self.peer = fakenet.PeerEnd(rt)
         self.tm = shims.make_time()
         self.handshake_request = None
